@@ -41,7 +41,15 @@ func (l Compressor) DecompressWithLength(source io.Reader, dest io.Writer) error
 	if compressedMessage, err := bufferFromReader(source); err != nil {
 		return fmt.Errorf("cannot read compressed message: %w", err)
 	} else {
-		if decompressedMessage, err := snappy.Decode(nil, compressedMessage.Bytes()); err != nil {
+		// the block starts with the decompressed length, which snappy.Decode allocates up front: refuse lengths that the
+		// compressed bytes cannot possibly expand to (no element of the format produces more than 64 bytes, and every
+		// element occupies at least one byte)
+		if decompressedLength, err := snappy.DecodedLen(compressedMessage.Bytes()); err != nil {
+			return fmt.Errorf("cannot decompress message: %w", err)
+		} else if decompressedLength > maxCompressionRatio*compressedMessage.Len() {
+			return fmt.Errorf("cannot decompress message: declared length %d is impossible for %d compressed bytes",
+				decompressedLength, compressedMessage.Len())
+		} else if decompressedMessage, err := snappy.Decode(nil, compressedMessage.Bytes()); err != nil {
 			return fmt.Errorf("cannot decompress message: %w", err)
 		} else if _, err := dest.Write(decompressedMessage); err != nil {
 			return fmt.Errorf("cannot write decompressed message: %w", err)
@@ -49,6 +57,9 @@ func (l Compressor) DecompressWithLength(source io.Reader, dest io.Writer) error
 		return nil
 	}
 }
+
+// maxCompressionRatio is an upper bound of the Snappy format's compression ratio.
+const maxCompressionRatio = 64
 
 func bufferFromReader(source io.Reader) (*bytes.Buffer, error) {
 	var buf *bytes.Buffer
